@@ -133,7 +133,13 @@ class CallMixin:
         if len(pos) > len(names):
             if a.vararg is None:
                 return Exc("TypeError", "too many positional")
-            bound[a.vararg.arg] = tuple(pos[len(names):])
+            extra = pos[len(names):]
+            if len(extra) == 1 and isinstance(extra[0], StarArg):
+                bound[a.vararg.arg] = extra[0].v      # *collection forwarded as the whole var-positional tuple
+            elif any(isinstance(x, StarArg) for x in extra):
+                raise OutOfSubset("mixed starred and plain var-positional arguments", node)
+            else:
+                bound[a.vararg.arg] = tuple(extra)
             pos = pos[: len(names)]
         elif a.vararg is not None:
             bound[a.vararg.arg] = ()
@@ -346,7 +352,8 @@ class CallMixin:
                     r = z3.Const("r!fr", Ref)
                     oldarr = st.heap.get(k)
                     st.heap.set(k, newarr)
-                    st.assume(z3.ForAll([r], z3.Implies(z3.And(*[r != o for o in owners]), z3.Select(newarr, r) == z3.Select(oldarr, r)), patterns=[z3.Select(newarr, r)]))
+                    outside = z3.Not(owners(r)) if callable(owners) else z3.And(*[r != o for o in owners])
+                    st.assume(z3.ForAll([r], z3.Implies(outside, z3.Select(newarr, r) == z3.Select(oldarr, r)), patterns=[z3.Select(newarr, r)]), name="frame")
 
     # ------------------------------------------------------------ constructors
     def construct(self, cls, args, kwargs, st, node):
@@ -357,10 +364,19 @@ class CallMixin:
             bound = dict(zip(names, args))
             bound.update(kwargs)
             if m:
-                b2 = self.bind_args(m[2], Sym(fresh("new", Ref), ("ref", cls)), args, kwargs, st, node, m[0])
+                newref = fresh("new" + cls, Ref)
+                if con.result is None:
+                    # __init__ contract describing the writes to the fresh self
+                    st.assume(dyn_class(newref) == SHAPES[cls].cid)
+                    alloc = st.heap.get("$alloc")
+                    st.assume(z3.Not(z3.Select(alloc, newref)))
+                    st.heap.set("$alloc", z3.Store(alloc, newref, z3.BoolVal(True)))
+                b2 = self.bind_args(m[2], Sym(newref, ("ref", cls)), args, kwargs, st, node, m[0])
                 if isinstance(b2, Exc):
                     return [(b2, st)]
                 bound = b2
+                if con.result is None:
+                    return [(r if isinstance(r, Exc) else Sym(newref, ("ref", cls)), s2) for r, s2 in self.apply_contract(con, bound, st, node)]
             return self.apply_contract(con, bound, st, node)
         if cls not in SHAPES:
             raise OutOfSubset(f"constructor of undeclared class {cls}", node)
@@ -442,6 +458,45 @@ class CallMixin:
                 return [(None, st)]
             if name == "copy":
                 return [(self.as_seq(v, st), st)]
+            if name == "insert":
+                n = st.heap.read(v.key + ".len", v.owner)
+                arr = st.heap.read(v.key + ".at", v.owner)
+                it, _ = znum(args[0])
+                self.oblige(st, f"safe:insert-index-in-range@{self.ntag(node)}", z3.And(it >= 0, it <= n), "safety")
+                k = z3.Int("k!ins")
+                x = self.coerce(args[1], v.ety)
+                newarr = z3.Lambda([k], z3.If(k < it, z3.Select(arr, k), z3.If(k == it, x, z3.Select(arr, k - 1))))
+                self.note_write(v.key, v.owner, st)
+                st.heap.write(v.key + ".at", v.owner, newarr)
+                st.heap.write(v.key + ".len", v.owner, n + 1)
+                return [(None, st)]
+            if name == "index":
+                sv = self.as_seq(v, st)
+                xt = self.coerce(args[0], sv.ety)
+                j = z3.Int("j!ix")
+                found = z3.Exists([j], z3.And(0 <= j, j < sv.n, z3.Select(sv.arr, j) == xt))
+                out = []
+                for side, s2 in self.branch(found, st, "index"):
+                    if not side:
+                        out.append((Exc("ValueError"), s2))
+                    else:
+                        i = fresh("idx", I)
+                        s2.assume(0 <= i, i < sv.n, z3.Select(sv.arr, i) == xt,
+                                  z3.ForAll([j], z3.Implies(z3.And(0 <= j, j < i), z3.Select(sv.arr, j) != xt), patterns=[z3.Select(sv.arr, j)]))
+                        out.append((Sym(i, "int"), s2))
+                return out
+        from .expr import ImgSet
+        if isinstance(v, ImgSet) and name == "pop":
+            sq = v.seq
+            out = []
+            for side, s2 in self.branch(sq.n >= 1, st, "pop"):
+                if not side:
+                    out.append((Exc("KeyError"), s2))
+                else:
+                    w = fresh("popidx", I)
+                    s2.assume(0 <= w, w < sq.n)
+                    out.append((Sym(z3.Select(sq.arr, w), sq.ety), s2))
+            return out
         if isinstance(v, PyList):
             if name == "append":
                 v.items.append(args[0])
